@@ -140,6 +140,9 @@ def _refs(args):
     if second:
         over = [n for n in plain if rng.random() < 0.6] or plain[:1]
         comps_b = [f'@{n} = "from-b-{j}"' for j, n in enumerate(over)] + ["@onlyb = count_lines()"]
+        # a tracking variable of the same name with ANOTHER key: the later member's dictionary is the group's variable
+        over_t = [(n, k) for (n, k) in tracked if rng.random() < 0.7]
+        comps_b += [f'@{n}.kb = "tb-{j}"' for j, (n, k) in enumerate(over_t)]
         texts1.append("~ id: b ~ $data[1*][ " + " ".join(comps_b) + " ]")
     nruns = rng.choice([1, 2, 3])
     clock = pharness.FakeClock()
@@ -179,8 +182,8 @@ def _refs(args):
                     comps2.append(f"@r{k} = $g1.variables.{name}")
                     refs.append({"what": "variable", "name": name, "key": [], "hname": [], "var": f"r{k}"})
                     k += 1
-            for name, key in tracked:
-                if name in src_vars:
+            for name, key in tracked + ([(n, "kb") for (n, _) in tracked] if second else []):
+                if any(name in mv for mv in member_vars):
                     comps2.append(f"@r{k} = $g1.variables.{name}.{key}")
                     refs.append({"what": "variable", "name": name, "key": txt(key), "hname": [], "var": f"r{k}"})
                     k += 1
